@@ -1,6 +1,7 @@
 //! Property check C10 — what was acknowledged survives any crash; what was not is invisible.
 mod fault_layer;
 mod host_layer;
+mod mseg_layer;
 mod probe;
 mod store_layer;
 mod util;
@@ -15,10 +16,17 @@ fn main() {
         r.machinery_error(&e);
         r.finish();
     }
-    r.rule("a case is one crash image: (workload, byte length L of the segment, coexisting ledger/manifest/temp-file versions); \
-            distinct_nontrivial counts images whose L is not a transaction boundary (a torn record or an uncommitted tail must be discarded)");
-    r.assume("crash model = pure prefix truncation of the single active segment plus the temp+rename stages of ledger and manifest; \
+    r.rule("a case is one crash image: (workload, byte length L of the segment being appended to, coexisting ledger/manifest/temp-file versions); \
+            distinct_nontrivial counts images whose L is not a transaction boundary (a torn record or an uncommitted tail must be discarded). \
+            Multi-segment workloads (2-3 segment files made by rotate_segment and by a new writer opening the next segment id under a fresh epoch): \
+            the durable mutations are recorded in program order and every stage of every mutation from the creation of segment 2 on is one crash image \
+            (new segment file absent / created empty, every byte length of the newest segment with all earlier segments complete, every temp+rename stage of every \
+            ledger and manifest publication); there distinct_nontrivial counts every image except those that end exactly at a commit marker");
+    r.assume("crash model = pure prefix truncation of the active (newest) segment plus the temp+rename stages of ledger and manifest; earlier segments are complete \
+              (every transaction in them was acknowledged after an fsync of that file, which the interposer checks); \
               unsynced frame bytes are assumed to reach the disk in order (no block reordering)");
+    r.assume("multi-segment logs exist at the store layer only: TrustedRuntimeHost always opens segment 1 and has no rotation call, so host-layer crash points stay single-segment; \
+              the continuing writer of a multi-segment crash image re-opens the newest segment file that is left after recovery");
     r.assume("fsync coverage is observed by a link-time interposer of fsync/fdatasync in the harness binary (raw syscall forwarded)");
 
     if let Some(path) = r.replay.clone() {
@@ -33,6 +41,13 @@ fn main() {
                     .filter_map(|c| walkit::store::KINDS.iter().copied().find(|k| k.letter() == c)).collect();
                 let d = walkit::fresh_dir(&mc::scratch_root(), "replay-cycle2");
                 walkit::store::build_log(&d, &w, 0, true).map(|log| store_layer::crash_during_recovery(&r, &[log]))
+            }
+            Some("store-mseg") => mseg_layer::replay(&case, &mut st),
+            Some("store-mseg-cycle2") => {
+                walkit::mseg::MSpec::parse(case["word"].as_str().unwrap_or("")).ok_or("bad word".to_string()).and_then(|spec| {
+                    let d = walkit::fresh_dir(&mc::scratch_root(), "replay-mcycle2");
+                    walkit::mseg::build_multi(&d, &spec, 0).map(|log| mseg_layer::crash_during_recovery(&r, &[log]))
+                })
             }
             Some("host") | Some("host-continue") => host_layer::replay(&case, &mut st),
             Some("store-fault") | Some("host-fault") => fault_layer::replay(&case, &mut st),
@@ -59,6 +74,10 @@ fn main() {
     if only.is_empty() || only.contains("store") {
         let logs = store_layer::run(&r);
         store_layer::crash_during_recovery(&r, &logs);
+    }
+    if only.is_empty() || only.contains("mseg") {
+        let mlogs = mseg_layer::run(&r);
+        mseg_layer::crash_during_recovery(&r, &mlogs);
     }
     let host = if only.is_empty() || only.contains("host") || only.contains("fault") {
         host_layer::run(&r)
